@@ -11,6 +11,12 @@ Contract (from the property statement, nothing more):
   * dfs: genuine path <=> one exists;  all solvers agree on shared inputs;  reconstruct_path / _reconstruct_indexed
     follow the parent map from the target back to the root.
 Oracle: oracles/shortest_paths.py (exact; walk-DP, simple-path brute force, dense Dijkstra, certificate check).
+
+Beyond the small scope (checks/C11_round2.py, same judges): size ladder (10..2000 nodes, up to ~50000 arcs, polynomial
+oracle + certificate), magnitude ladder (weights c*2^k, c*10^k, c*B+e, gaps of 2^-k; exhaustive n=3 at B=1e10), history
+mode (one adjacency dict / edge list / callables edited in place between calls; fresh-process comparison), grid ladder,
+long runs.  Every call of a function under check runs under a CPU-time budget (ITIMER_VIRTUAL): the statement promises a
+report for every query, so "does not return" is the obligation ensures:returns-a-result.
 """
 from __future__ import annotations
 
@@ -18,6 +24,7 @@ import hashlib
 import itertools
 import math
 import random
+import signal
 
 from vf.core import Ctx, use_repo
 from oracles import shortest_paths as O
@@ -39,6 +46,7 @@ def _mods():
     from solvor.utils.helpers import reconstruct_path
     from solvor.types import Status
     d = dict(locals())
+    signal.signal(signal.SIGVTALRM, _on_vtalrm)
     for k, f in list(d.items()):
         if k != "Status":
             d[k] = _guard(f)
@@ -49,10 +57,47 @@ class SolverRaised(Exception):
     """the function under check raised on an input of the property's domain"""
 
 
+class SolverHung(SolverRaised):
+    """no result within the CPU-time budget (the statement promises a report for every query)"""
+
+
+class _CpuBudget(BaseException):
+    pass
+
+
+def _on_vtalrm(signum, frame):
+    raise _CpuBudget()
+
+
+# CPU seconds (ITIMER_VIRTUAL: user time of this process only, so machine load cannot decide a verdict) granted to ONE
+# call of a function under check.  On the unchanged tree the slowest small-scope call needs < 1 ms; the size-ladder
+# families raise the budget (cpu_budget) to >= 20x what their largest call needs.
+BUDGET = [1.0]
+
+
+class cpu_budget:
+    def __init__(self, seconds):
+        self.seconds = seconds
+
+    def __enter__(self):
+        self.old = BUDGET[0]
+        BUDGET[0] = self.seconds
+
+    def __exit__(self, *a):
+        BUDGET[0] = self.old
+        return False
+
+
 def _guard(f):
     def g(*a, **kw):
         try:
-            return f(*a, **kw)
+            signal.setitimer(signal.ITIMER_VIRTUAL, BUDGET[0])
+            try:
+                return f(*a, **kw)
+            finally:
+                signal.setitimer(signal.ITIMER_VIRTUAL, 0)
+        except _CpuBudget:
+            raise SolverHung(f"{f.__name__} did not return within {BUDGET[0]} s of CPU time") from None
         except Exception as e:  # noqa: BLE001
             raise SolverRaised(f"{f.__name__} raised {type(e).__name__}: {e}") from None
     g.__name__ = f.__name__
@@ -129,6 +174,19 @@ class G:
             self.adj_w[L[u]].append((L[v], w))
             self.adj_u[L[u]].append(L[v])
         self._dist, self._hops, self._und = {}, {}, {}
+        self._hok = {}
+
+    def h_arg(self, h):
+        """the heuristic callable handed to astar for the table h (history mode hands over one shared callable)"""
+        idx = self.idx
+        return lambda x: h[idx[x]]
+
+    def goal_arg(self, T, pred):
+        L = self.labels
+        if pred:
+            return (lambda Ls: (lambda x: x in Ls))({L[t] for t in T})
+        (t,) = T
+        return L[t]
 
     def nb_w(self):
         a = self.adj_w
@@ -141,6 +199,13 @@ class G:
         if self.gen:
             return lambda x: iter(a[x])
         return lambda x: a[x]
+
+    def edge_arg(self):
+        """the `edges` argument handed to the edge-list entry points (history mode hands over one shared list)"""
+        return list(self.edges)
+
+    def uedge_arg(self):
+        return [(u, v) for u, v, _ in self.edges]
 
     def dist(self, s):
         if s not in self._dist:
@@ -223,25 +288,34 @@ def h_values(Gr, T, name, rng=None):
 
 
 def h_ok(Gr, T, h):
-    """admissible and consistent: h >= 0, h(goal) = 0, h(u) <= w(u,v) + h(v) on every arc"""
+    """admissible and consistent: h >= 0, h(goal) = 0, h(u) <= w(u,v) + h(v) on every arc (exact arithmetic)"""
+    key = (id(h), tuple(sorted(T)))
+    c = Gr._hok.get(key)
+    if c is None or c[0] is not h:
+        c = Gr._hok[key] = (h, _h_ok(Gr, T, h))  # keeps h alive, so the id stays its own
+    return c[1]
+
+
+def _h_ok(Gr, T, h):
     for t in T:
         if h[t] != 0:
             return False
     for x in h:
         if not x >= 0:
             return False
+    eh = [None if x == FINF else O.exact(x) for x in h]
     for u, v, w in Gr.arcs:
-        if h[u] == FINF:
-            if h[v] != FINF:
+        if eh[u] is None:
+            if eh[v] is not None:
                 return False
-        elif h[v] != FINF and O.exact(h[u]) > w + O.exact(h[v]):
+        elif eh[v] is not None and eh[u] > w + eh[v]:
             return False
     dT = Gr.to_goal(T)  # admissible (follows from the two above when T reachable; inf only where unreachable)
     for u in range(Gr.n):
-        if h[u] == FINF:
+        if eh[u] is None:
             if dT[u] is not None:
                 return False
-        elif dT[u] is not None and O.exact(h[u]) > dT[u]:
+        elif dT[u] is not None and eh[u] > dT[u]:
             return False
     return True
 
@@ -341,11 +415,7 @@ def run_probe(Gr, p):
     if k in ("dijkstra", "astar", "bfs", "dfs"):
         s = p["s"]
         T = set(p["T"])
-        if p.get("pred"):
-            goal = (lambda Ls: (lambda x: x in Ls))({L[t] for t in T})
-        else:
-            (t,) = T
-            goal = L[t]
+        goal = Gr.goal_arg(T, p.get("pred"))
         kw = {}
         if p.get("max_iter") is not None:
             kw["max_iter"] = p["max_iter"]
@@ -357,8 +427,7 @@ def run_probe(Gr, p):
             h = p["h"]
             if not h_ok(Gr, T, h):
                 raise Inconsistent(p)
-            idx = Gr.idx
-            res = m["astar"](L[s], goal, Gr.nb_w(), lambda x: h[idx[x]], **kw)
+            res = m["astar"](L[s], goal, Gr.nb_w(), Gr.h_arg(h), **kw)
         elif k == "bfs":
             res = m["bfs"](L[s], goal, Gr.nb_u(), **kw)
         else:
@@ -369,9 +438,9 @@ def run_probe(Gr, p):
     if k in ("dijkstra_edges", "bfs_edges", "dfs_edges"):
         s, t = p["s"], p.get("t")
         if k == "dijkstra_edges":
-            res = m[k](Gr.n, list(Gr.edges), s, target=t, backend="python")
+            res = m[k](Gr.n, Gr.edge_arg(), s, target=t, backend="python")
         else:
-            res = m[k](Gr.n, [(u, v) for u, v, _ in Gr.edges], s, target=t, backend="python")
+            res = m[k](Gr.n, Gr.uedge_arg(), s, target=t, backend="python")
         if t is None:
             if k == "dijkstra_edges":
                 return judge_distmap(k, Gr, res.solution, s, Gr.dist(s)[0]), None
@@ -388,7 +457,7 @@ def run_probe(Gr, p):
         return v, summary(res)
     if k == "bf":
         s, t = p["s"], p.get("t")
-        res = m["bellman_ford"](s, list(Gr.edges), Gr.n, target=t, backend="python")
+        res = m["bellman_ford"](s, Gr.edge_arg(), Gr.n, target=t, backend="python")
         d, neg = Gr.dist(s)
         if t is None:
             name = "bellman_ford"
@@ -408,7 +477,7 @@ def run_probe(Gr, p):
         return v, summary(res)
     if k == "fw":
         directed = p.get("directed", True)
-        res = m["floyd_warshall"](Gr.n, list(Gr.edges), directed=directed, backend="python")
+        res = m["floyd_warshall"](Gr.n, Gr.edge_arg(), directed=directed, backend="python")
         rows = [(Gr.dist(s) if directed else Gr.und(s)) for s in range(Gr.n)]
         anyneg = any(neg for _, neg in rows)
         name = "floyd_warshall"
@@ -437,6 +506,8 @@ def run_probe(Gr, p):
 def agree(Gr, s, t, have=None):
     """all solvers give the same answer for s -> t (direct comparison of their outputs, no oracle)"""
     have = dict(have or {})
+    if getattr(Gr, "skip_fw", False):
+        have.setdefault("fw", None)  # size ladder: floyd_warshall is only run (and compared) up to a node limit
     unit = all(w == 1 for _, _, w in Gr.arcs)
 
     def get(name, probe):
@@ -544,19 +615,26 @@ def battery(Gr, mode, rng):
     return probes, srcs
 
 
-def check_graph(gd, mode, rng, out, brute=True):
-    Gr = G(gd)
-    Gr.selfcheck(brute)
-    probes, srcs = battery(Gr, mode, rng)
+def run_battery(Gr, probes, agree_srcs, mkcase, out):
+    """run the probes on one graph, then the agreement comparison on the answers already computed (replay recomputes
+    them).  mkcase(probe) -> the replayable case stored with a violation."""
     res = {}
+    lost = set()  # sources from which bellman_ford already missed a negative cycle / did not return: the remaining
+    #               per-target queries from there would only repeat that finding (and each burn a full CPU budget)
     for p in probes:
+        if p["k"] == "bf" and p["s"] in lost:
+            continue
         try:
             v, summ = run_probe(Gr, p)
         except Inconsistent:
             continue
         except SolverRaised as e:
             v, summ = [(f"{P}/{p['k']}/ensures:returns-a-result", str(e))], None
+            if p["k"] == "bf" and isinstance(e, SolverHung):
+                lost.add(p["s"])
         out["n"] += 1
+        if p["k"] == "bf" and any("UNBOUNDED-iff" in o for o, _ in v):
+            lost.add(p["s"])
         plain = not p.get("pred") and p.get("max_cost") is None and p.get("max_iter") is None
         if plain and summ is not None:
             if p["k"] == "fw":
@@ -570,9 +648,10 @@ def check_graph(gd, mode, rng, out, brute=True):
                 res[(p["k"], p["s"], p["t"])] = summ
         for obl, det in v:
             if len(out["viol"]) < MAXV:
-                out["viol"].append((obl, {"kind": "graph", "graph": gd, "probe": p}, det))
-    # agreement on the answers already computed (replay recomputes them)
-    for s in (srcs if mode != "neg" else range(Gr.n)):
+                out["viol"].append((obl, mkcase(p), det))
+    for s in agree_srcs:
+        if s in lost:
+            continue
         for t in range(Gr.n):
             have = {k: res[(k, s, t)] for k in ("dijkstra", "astar", "dijkstra_edges", "bfs", "bfs_edges", "bf", "dfs") if (k, s, t) in res}
             if ("bf", s, t) not in res:
@@ -586,7 +665,14 @@ def check_graph(gd, mode, rng, out, brute=True):
                 ag = [(f"{P}/agreement/ensures:returns-a-result", str(e))]
             for obl, det in ag:
                 if len(out["viol"]) < MAXV:
-                    out["viol"].append((obl, {"kind": "graph", "graph": gd, "probe": {"k": "agree", "s": s, "t": t}}, det))
+                    out["viol"].append((obl, mkcase({"k": "agree", "s": s, "t": t}), det))
+
+
+def check_graph(gd, mode, rng, out, brute=True):
+    Gr = G(gd)
+    Gr.selfcheck(brute)
+    probes, srcs = battery(Gr, mode, rng)
+    run_battery(Gr, probes, srcs if mode != "neg" else range(Gr.n), lambda p: {"kind": "graph", "graph": gd, "probe": p}, out)
     if Gr.nontrivial(srcs if mode != "neg" else range(Gr.n)):
         out["keys"].append(key64((gd["n"], gd["edges"])))
     if out["sample"] is None and len(gd["edges"]) >= 3:
@@ -870,6 +956,9 @@ def work(case):
                 out["viol"].append((obl, c, det))
             if any(p >= 0 and par[p] >= 0 for p in par):
                 out["keys"].append(key64(("r", par, case["labels"])))
+    else:  # size ladder / history / grid ladder / long runs
+        from checks import C11_round2
+        return C11_round2.work2(case)
     return out
 
 
@@ -1076,7 +1165,21 @@ def build_cases(ctx: Ctx):
                 cases.append({"kind": "recon", "parents": ch, "labels": sch})
     ctx.scope("reconstruct_path/_reconstruct_indexed: every acyclic parent map", n="1..%d" % (4 if q else 5), exhaustive=True)
     rng.shuffle(cases)
-    return cases
+    # -- round 2: size ladder, magnitude ladder, history mode, grid ladder, long runs (checks/C11_round2.py); the heavy
+    #    items go first so that they never end up alone at the tail of the pool
+    from checks import C11_round2
+    heavy = C11_round2.build_cases2(ctx, random.Random(ctx.seed + 2))
+    order = {"big": 0, "gridbig": 0, "implicit": 0, "hist": 1}
+    heavy.sort(key=lambda c: (order.get(c["kind"], 2), -C11_round2.cost(c)))
+    k = sum(1 for c in heavy if order.get(c["kind"], 2) == 0)
+    rest = cases + heavy[k:]
+    rng.shuffle(rest)
+    out = []  # pool.map hands out chunks of 4 consecutive items: at most one heavy item per chunk, the biggest first
+    for i, h in enumerate(heavy[:k]):
+        out.append(h)
+        out.extend(rest[3 * i:3 * i + 3])
+    out.extend(rest[3 * k:])
+    return out
 
 
 # ====================================================================== entry points
@@ -1105,18 +1208,29 @@ def run(ctx: Ctx):
     ctx.rule = ("each evaluation = one solver call (or one agreement comparison) whose result is judged against the exact oracle. "
                 "Graph instance non-trivial: for a queried source some target's shortest path needs >=2 arcs (no direct arc, or the direct "
                 "arc is strictly longer), or a negative cycle is reachable; grid non-trivial: has an obstacle and some free pair is cut off "
-                "or needs a detour; parent map non-trivial: depth>=2. distinct = different (n, edge list) / (grid, directions) / (parent map, labels).")
+                "or needs a detour; parent map non-trivial: depth>=2. distinct = different (n, edge list) / (grid, directions) / (parent map, labels). "
+                "Round-2 families: one size-ladder / grid-ladder / long-run instance = one generator spec (family, n, density, seed), counted once "
+                "as non-trivial (all have >= 10 nodes and multi-arc shortest paths by construction); magnitude-ladder graphs are counted by the same "
+                "rule as the small scope; one history stream = one spec (seed, steps), every call in it is one evaluation judged against the oracle "
+                "for the graph as it is at that call.")
     ctx.assumptions += [
         "astar is only called with heuristics that pass an exact admissibility+consistency check; weight=1",
         "astar_grid: start on a free cell; costs >= 1 and a heuristic admissible for the neighbourhood (auto, or octile/euclidean/chebyshev, "
         "manhattan only with 4 neighbours); grid distances compared with tolerance 1e-9 (sqrt 2 sums), everything else exactly",
-        "weights are ints or dyadic floats, so float sums are exact and '==' is the contract",
+        "weights are ints or dyadic floats, so float sums are exact and '==' is the contract; on the magnitude ladder every label a solver can "
+        "form stays below 2^51 (non-negative graphs, one spare bit for g + h/2) / 2^50 (negative weights: n*m*max|w|) times one common power of two",
+        "every call runs under a CPU-time budget (1 s for graphs with <= 12 nodes, 600 s on the size ladder; the unchanged tree needs < 1 ms / < 20 s): "
+        "the statement promises a report for every query, so exceeding it is reported as ensures:returns-a-result",
+        "default max_iter (1 000 000) counts as a given limit: MAX_ITER is accepted on the implicit chain with more than 10^6 reachable nodes",
         "with max_cost=M a target with delta>M may be reported INFEASIBLE (unreachable within the limit); any *reported* distance must be the true shortest one",
         "MAX_ITER is accepted only if max_iter <= number of reachable nodes",
         "backend='python' forced for bellman_ford, floyd_warshall, dijkstra_edges, bfs_edges, dfs_edges (Rust equivalence is C12)",
     ]
     ctx.trusted += ["oracles/shortest_paths.py (walk DP cross-checked with simple-path brute force on the exhaustive scopes and with the "
-                    "potential/tight-arc certificate everywhere; Q2 exact arithmetic in Z[sqrt2] for grids)"]
+                    "potential/tight-arc certificate everywhere; Q2 exact arithmetic in Z[sqrt2] for grids; size ladder: array Dijkstra / Johnson / exact "
+                    "integer Bellman-Ford, every distance vector handed to a judge has passed the certificate (the verdict 'negative cycle reachable' rests on the "
+                    "exact Bellman-Ford alone); grid ladder: heap Dijkstra accepted only through "
+                    "the certificate)", "checks/C11_round2.py generators (instances are regenerated from the spec on replay)"]
 
 
 def replay(rec) -> int:
@@ -1130,6 +1244,9 @@ def replay(rec) -> int:
             v = [(rec.get("obligation"), str(e))]
     elif case["kind"] == "grid":
         v, _ = run_grid_probe(case["grid"], case["probe"])
+    elif case["kind"] in ("big", "history", "gridbig", "gridhist", "implicit"):
+        from checks import C11_round2
+        v = [(o or rec.get("obligation"), d) for o, d in C11_round2.replay2(case)]
     else:
         try:
             v = recon_check(case)
